@@ -1,0 +1,43 @@
+//go:build verif
+
+package common
+
+// Contracts for the deductive checker in /verif (comment-only; compiled only with -tags verif).
+// C16, query side of the distribution precompile: the ABI view of a list of decimal coins.
+
+/*@
+alias SdkDecCoin github.com/cosmos/cosmos-sdk/types.DecCoin
+alias SdkDecCoins github.com/cosmos/cosmos-sdk/types.DecCoins
+alias DecCoinT github.com/haqq-network/haqq/precompiles/common.DecCoin
+alias DecCoinList []github.com/haqq-network/haqq/precompiles/common.DecCoin
+
+// a *big.Int field of the output holds the native integer (math.Int) / 18-decimal scaled integer (LegacyDec)
+specfunc bigis(p *math/big.Int, n int) bool = p != nil && *p == n
+
+// DecCoin{denom, amount, precision} stands for the decimal amount * 10^-precision of denom: for the native DecCoin (whose
+// LegacyDec amount is the integer mantissa scaled by 10^18, lib/20_sdkmath.spec) that is the mantissa with precision 18 - the same
+// convention the package uses for Dec{Value: d.BigInt(), Precision: 18} (distribution.ValidatorSlashEvent.Fraction)
+specfunc deccoin_head(o DecCoinT, c SdkDecCoin) bool = o.Denom == c.Denom && o.Precision == 18
+specfunc deccoin_conv(o DecCoinT, c SdkDecCoin) bool = o.Denom == c.Denom && o.Precision == 18 && bigis(o.Amount, c.Amount)
+specfunc deccoins_conv(o DecCoinList, l SdkDecCoins) bool = len(o) == len(l) && (forall k int :: 0 <= k && k < len(l) ==> deccoin_conv(o[k], l[k]))
+
+// C16: the ABI view of a list of decimal coins has the same denominations and amounts, in the same order: entry k is
+// (denom of entry k, mantissa of the amount of entry k, precision 18)
+// FINDING (Y1): the code reports Amount.TruncateInt() - the integer part of the amount - under precision 18: the fraction is
+// dropped and the reported number is 10^18 times too small under the package's own (value, precision) convention
+func NewDecCoinsResponse
+    ensures shape: len(result) == len(amount)
+    ensures denoms: forall k int :: 0 <= k && k < len(amount) ==> deccoin_head(result[k], amount[k])
+    ensures nonnil: forall k int :: 0 <= k && k < len(amount) ==> result[k].Amount != nil
+    ensures amounts: forall k int :: 0 <= k && k < len(amount) ==> bigis(result[k].Amount, amount[k].Amount)
+    loop 1 invariant idx: 0 <= #i && #i <= len(amount) && len(outputs) == len(amount)
+    loop 1 invariant denoms: forall k int :: 0 <= k && k < #i ==> deccoin_head(outputs[k], amount[k]) && outputs[k].Amount != nil && fresh(outputs[k].Amount)
+    loop 1 invariant amounts: forall k int :: 0 <= k && k < #i ==> bigis(outputs[k].Amount, amount[k].Amount)
+
+// C16 (decoding side): the SDK coin of an ABI coin has the same denomination and amount. sdk.NewCoin panics on an invalid
+// denomination (validity of denominations is not modelled, lib/40_coins.spec) or a negative amount; math.NewIntFromBigInt on a nil
+// amount gives the nil Int (not modelled, A-int256), on which NewCoin panics as well - excluded by the precondition
+func (Coin).ToSDKType
+    requires wf: c.Amount != nil && *c.Amount >= 0
+    ensures same: result.Denom == c.Denom && result.Amount == *c.Amount
+@*/
